@@ -47,7 +47,8 @@ RULE = ('case = one generated string (escape), one (handler class, message, code
 TRUSTED = ['model Escape.v hand-written from html.escape / escape_html / XMLExceptionHandler.render / tempita subset',
            'translator spec exc_templates.py (templates, escape_html, render methods, RequestError call sites)',
            'app-level claims (never raises, images decode, no trace back) are validated by the request stream only']
-ASSUMPTIONS = ['str.replace with a one-character pattern replaces every occurrence left to right without rescanning',
+ASSUMPTIONS = ['re.sub with a character class replaces exactly the characters of the class (xml_sanitize; checked by correspondence)',
+               'str.replace with a one-character pattern replaces every occurrence left to right without rescanning',
                'tempita renders literal text verbatim and {{v}} as str(v) / empty for None (checked by correspondence)',
                'a WSGI server never delivers CR or LF inside a header value or the request line',
                'debug_mode is off (the catch-all of MapProxyApp.__call__ re-raises in debug mode by design)',
@@ -498,6 +499,9 @@ def build_app(ctx):
     def fake_open(self, url, data=None, method=None):
         from urllib.parse import urlparse, parse_qs
         q = {k.lower(): v[0] for k, v in parse_qs(urlparse(url).query).items()}
+        if UP['mode'] == 'oserror':
+            # an unexpected server-side fault whose text names a file of the server
+            raise OSError(13, 'Permission denied', os.path.join(UP['base'], 'secret', 'client-cert.pem'))
         if UP['mode'] == 'error':
             raise H.HTTPClientError('HTTP Error "%s": 500 <c18m> &' % url, response_code=500)
         req = q.get('request', '').lower()
@@ -528,8 +532,20 @@ def build_app(ctx):
         return b
 
     H.HTTPClient.open = fake_open
+    UP['base'] = base
     app = make_wsgi_app(conf)
-    return app, base
+    # a second instance whose cache / lock directories cannot be created (the parent is a regular file):
+    # every store fails on the server side
+    with open(os.path.join(base, 'afile'), 'w') as f:
+        f.write('x')
+    conf2 = os.path.join(base, 'mapproxy-faulty.yaml')
+    with open(conf2, 'w') as f:
+        f.write(CONF % {'base': os.path.join(base, 'afile')})
+    try:
+        faulty = make_wsgi_app(conf2)
+    except Exception:  # noqa
+        faulty = None
+    return app, base, faulty
 
 
 WMS_MAP = {'service': 'WMS', 'request': 'GetMap', 'version': '1.1.1', 'layers': 'cached', 'styles': '', 'srs': 'EPSG:4326',
@@ -733,9 +749,6 @@ def requested_size(name, path, pairs):
     return None
 
 
-HOST_HEADERS = ('HTTP_HOST', 'HTTP_X_FORWARDED_HOST', 'HTTP_X_FORWARDED_PROTO')
-
-
 def xml_document_problem(body, text):
     """None when the (non-exception) XML document is well-formed and free of injected markup"""
     bad = sorted(set(c for c in text if not xml_char_ok(c)))
@@ -752,20 +765,7 @@ def xml_document_problem(body, text):
     return None
 
 
-VALID_IMAGE_TYPES = ('image/png', 'image/jpeg', 'image/gif', 'image/tiff', 'image/webp')
-
-
-def first_param(qs, key):
-    from urllib.parse import parse_qsl
-    # RequestParams joins repeated parameters with a comma
-    try:
-        vals = [v for k, v in parse_qsl(qs, True) if k.lower() == key]
-    except Exception:  # noqa
-        vals = []
-    return ','.join(vals) if vals else None
-
-
-def oracle_response(ctx, name, res, rep, req_size, base, skeletons, appdocs, recheck=None):
+def oracle_response(ctx, name, res, rep, req_size, base, skeletons, appdocs):
     sig = 'service=%s,' % name.split('.')[0]
     if 'raised' in res:
         ctx.fail(sig + 'wsgi-raised', 'the WSGI application raised %s' % res['raised'], rep)
@@ -938,7 +938,7 @@ def part_welcome(ctx, app):
 def part_app(ctx, skeletons):
     logging.disable(logging.CRITICAL)
     try:
-        app, base = build_app(ctx)
+        app, base, faulty = build_app(ctx)
     except Exception as e:  # noqa
         import traceback
         ctx.problem('harness', 'cannot build the application: %r' % (e,), traceback.format_exc())
@@ -951,10 +951,25 @@ def part_app(ctx, skeletons):
         stream.append((name, path, pairs, {}, None, 'valid', 'ok'))
     k = 0
     for name, path, pairs in bases:                      # valid requests whose upstream fails / answers garbage
-        for up in ('error', 'garbage'):
+        for up in ('error', 'garbage', 'oserror'):
             k += 1
             p2, q2 = fresh(path, pairs, k)
             stream.append((name, p2, q2, {}, None, 'valid', up))
+    # demo pages: every parameter of every page with hostile values (with and without `/`, quotes, script end tags)
+    demo_hostile = ['"><c18m x="', "'><c18m x='", '</script><c18m>', 'image/png"><c18m x="', "image/png'><c18m x='",
+                    'image/</script><c18m>', 'a/b<c18m>', 'EPSG:4326"><c18m x="', 'EPSG:900913</script><c18m>', '<c18m>',
+                    'cached"><c18m x="', 'png<c18m>', '../<c18m>']
+    for name, path, pairs in bases:
+        if not name.startswith('demo.') or not pairs:
+            continue
+        for i, (key, _v) in enumerate(pairs):
+            for hv in demo_hostile:
+                q2 = list(pairs)
+                q2[i] = (key, hv)
+                stream.append((name, path, q2, {}, None, 'demo value %s' % key, 'ok'))
+                q3 = list(pairs)
+                q3[i] = (key, pairs[i][1] + hv)
+                stream.append((name, path, q3, {}, None, 'demo suffix %s' % key, 'ok'))
     # corpus
     cdir = os.path.join(VERIF, 'corpus', 'C18')
     if os.path.isdir(cdir):
@@ -974,7 +989,7 @@ def part_app(ctx, skeletons):
         if ctx.rng.random() < 0.4:
             path, pairs = fresh(path, pairs, ctx.rng.randrange(256))
         p2, q2, h2, raw, what = mutate(ctx.rng, name, path, pairs)
-        up = ctx.rng.choice(['ok', 'ok', 'ok', 'error', 'garbage'])
+        up = ctx.rng.choice(['ok', 'ok', 'ok', 'ok', 'error', 'garbage', 'oserror'])
         stream.append((name, p2, q2, h2, raw, what, up))
     for name, path, pairs, headers, raw, what, up in stream:
         qs = raw if raw is not None else enc_query(pairs, ctx.rng, raw_prob=0.15 if what != 'valid' else 0.0)
@@ -985,10 +1000,7 @@ def part_app(ctx, skeletons):
         rep = {'service': name, 'PATH_INFO': wpath, 'QUERY_STRING': qs, 'headers': headers, 'upstream': up, 'mutation': what,
                'status': res.get('status'), 'body_head': repr(b''.join(res.get('chunks') or [])[:300]) if 'chunks' in res else None}
         req_size = requested_size(name, path, pairs) if raw is None else None
-        def recheck(over, wpath=wpath, qs=qs, headers=headers, up=up):
-            UP['mode'] = up
-            return call_app(app, wpath, qs, dict(headers, **over))
-        kind = oracle_response(ctx, name, res, rep, req_size, base, skeletons, appdocs, recheck)
+        kind = oracle_response(ctx, name, res, rep, req_size, base, skeletons, appdocs)
         status = (res.get('status') or 'raised')[:3]
         ctx.case(('app', wpath, qs, tuple(sorted(headers.items())), up), what != 'valid',
                  {'part': 'app', 'PATH_INFO': wpath, 'QUERY_STRING': qs[:200], 'headers': headers, 'status': res.get('status')}
@@ -998,6 +1010,27 @@ def part_app(ctx, skeletons):
         ctx.count('app:answer=' + kind)
         if status == '500' and kind == 'text':
             ctx.count('app:catch-all-internal-error')
+    # the instance whose cache directories cannot be created
+    if faulty is None:
+        ctx.problem('harness', 'the application with an unusable cache directory could not be built')
+    else:
+        k = 0
+        for name, path, pairs in bases:
+            if name.split('.')[0] in ('demo', 'root', 'unknown') or 'cap' in name:
+                continue
+            for up in ('ok', 'error'):
+                k += 1
+                p2, q2 = fresh(path, pairs, 100 + k)
+                qs = enc_query(q2, ctx.rng)
+                UP['mode'] = up
+                res = call_app(faulty, p2, qs, {})
+                rep = {'service': name, 'instance': 'cache and lock directories below a regular file', 'PATH_INFO': p2, 'QUERY_STRING': qs,
+                       'headers': {}, 'upstream': up, 'status': res.get('status'),
+                       'body_head': repr(b''.join(res.get('chunks') or [])[:300]) if 'chunks' in res else None}
+                kind = oracle_response(ctx, name, res, rep, None, base, skeletons, appdocs)
+                ctx.case(('faulty', p2, qs, up), True)
+                ctx.count('faulty:status=' + (res.get('status') or 'raised')[:3])
+                ctx.count('faulty:answer=' + kind)
     logging.disable(logging.NOTSET)
     ctx.notes.append('answers produced by the catch-all of MapProxyApp.__call__ (500 "internal error", allowed by the property): %d of %d '
                      'requests; e.g. unparsable WIDTH/BBOX, GetFeatureInfo / GetLegendGraphic with a failing upstream, demo pages with '
